@@ -109,6 +109,15 @@ private:
 	// The object's raw attributes
 	std::map<CK_ATTRIBUTE_TYPE, OSAttribute*> attributes;
 
+	// Copy of the attributes taken when a transaction was started
+	std::map<CK_ATTRIBUTE_TYPE, OSAttribute*> savedAttributes;
+
+	// Are we in a transaction?
+	bool inTransaction;
+
+	// Discard the copy of the attributes taken for a transaction
+	void discardSavedAttributes();
+
 	// The object's validity state
 	bool valid;
 
